@@ -1627,10 +1627,6 @@ impl Fsm {
                 self.tracer.enter_method("externalQueue.dequeue");
                 loop {
                     let externalEventTmp = externalQueue_receiver.lock().unwrap().recv().unwrap();
-                    if externalEventTmp.name.starts_with(EVENT_DONE_INVOKE_PREFIX) {
-                        externalEvent = externalEventTmp;
-                        break;
-                    }
                     if let Some(invoke_id) = &externalEventTmp.invoke_id {
                         if caller_invoke_id.ne(invoke_id) {
                             // W3C says:
